@@ -1,7 +1,9 @@
 (* C04 - KVStore views and wrappers obey one ordered-map contract. Statements only.
-   Model: C04_KV/Model.v (mapdb + realm views + batches + flushkv/debug stacks, `run`) and the specification
-   `srun`: ONE association list kept in strictly ascending full-key order, views = realms, no wrappers,
-   a batch = the list of its calls replayed in order on Commit.
+   Model: C04_KV/Model.v (mapdb + realm views + batches + flushkv/debug stacks, `run`; `hrun` = histories in
+   which Iterate/IterateKeys consumers may call back into the store) and the specification `srun` / `shrun`:
+   ONE association list kept in strictly ascending full-key order, views = realms, no wrappers,
+   a batch = the list of its calls replayed in order on Commit, a re-entrant iteration = the range of the
+   ordered map at call time followed by the consumer's calls.
    Not expressible in a value model (checked by the correspondence harness only, see notes/C04.md):
    "values returned by reads are private copies and mutating a caller's buffer after Set or Commit has
    returned does not change stored data". *)
@@ -10,20 +12,34 @@ From Verif.C04_KV Require Import Model Lemmas Proofs Char.
 Import ListNotations.
 Open Scope N_scope.
 
-(* CENTRAL: for every history over every tree of views, wrapper stacks and batches, every result, the debug
-   log, the contents and the closed flag equal those of the single ordered map. *)
-Theorem C04_refines : forall h : list op,
+(* CENTRAL: for every history over every tree of views, wrapper stacks and batches - including Iterate /
+   IterateKeys calls whose consumer calls back into the store (HIterRe: any script of history operations per
+   callback) - every result (nested calls included), the debug log, the contents and the closed flag equal
+   those of the single ordered map (`shrun`: the range of the ordered map AT CALL TIME, then the nested calls). *)
+Theorem C04_refines : forall h : list hop,
+  snd (hrun init h) = snd (shrun sinit h) /\
+  log (w_st (fst (hrun init h))) = s_log (fst (shrun sinit h)) /\
+  (forall k, abs (w_st (fst (hrun init h))) k = lookup k (s_map (fst (shrun sinit h)))) /\
+  closed (w_st (fst (hrun init h))) = s_closed (fst (shrun sinit h)).
+Proof. exact hrefines. Qed.
+
+(* the same for histories without re-entrant consumers (round 1 statement; hrun (map HOp h) = run h) *)
+Theorem C04_refines_plain : forall h : list op,
   snd (run init h) = snd (srun sinit h) /\
   log (w_st (fst (run init h))) = s_log (fst (srun sinit h)) /\
   (forall k, abs (w_st (fst (run init h))) k = lookup k (s_map (fst (srun sinit h)))) /\
   closed (w_st (fst (run init h))) = s_closed (fst (srun sinit h)).
 Proof. exact refines. Qed.
 
-Theorem C04_spec_is_ordered_map : forall h, SS bleb (s_map (fst (srun sinit h))).
-Proof. exact spec_map_sorted. Qed.
+Theorem C04_hrun_plain : forall h w,
+  hrun w (map HOp h) = (fst (run w h), map (fun x => [x]) (snd (run w h))).
+Proof. exact hrun_plain. Qed.
 
-Theorem C04_reachable_inv : forall h, Inv (w_st (fst (run init h))).
-Proof. exact reachable_inv. Qed.
+Theorem C04_spec_is_ordered_map : forall h, SS bleb (s_map (fst (shrun sinit h))).
+Proof. exact hspec_map_sorted. Qed.
+
+Theorem C04_reachable_inv : forall h, Inv (w_st (fst (hrun init h))).
+Proof. exact hreachable_inv. Qed.
 
 (* Get/Has see the last write; missing keys give ErrKeyNotFound / false; reads change nothing. *)
 Theorem C04_get_spec : forall stk r k s, closed s = false ->
@@ -89,6 +105,29 @@ Theorem C04_iterate_stops : forall stk r p d lim s, closed s = false -> d <> DBa
   (forall k', abs (fst (exec stk r (KIterate p d lim) s)) k' = abs s k').
 Proof. exact iterate_stops. Qed.
 
+(* Re-entrant consumers: when the consumer of Iterate / IterateKeys calls back into the store (script = the
+   history operations it performs at callback 0, 1, ... through any view, wrapper or batch), the delivered list
+   is the iteration of the state AT CALL TIME - keys and values as they were together at that instant, whatever
+   the script writes -, the consumer runs once per delivered entry, and the world afterwards is the fold of the
+   consumer's operations (in order) over the state at call time; the nested calls' results are those of `run`. *)
+Theorem C04_iterate_snapshot_reentrant : forall w v vw ko p d lim script,
+  nth_error (w_views w) v = Some vw -> closed (w_st w) = false -> d <> DBad ->
+  let snap := firstn (Nat.max 1 lim) (iterate (v_realm vw) p d (m (w_st w))) in
+  let ops := consumer_ops (length snap) script in
+  let w0 := after_snapshot w vw (iter_op ko p d lim) in
+  hstep w (HIterRe v ko p d lim script) = (fst (run w0 ops), delivered ko snap :: snd (run w0 ops)).
+Proof. exact iterate_snapshot_reentrant. Qed.
+
+Theorem C04_iterate_reentrant_delivery_independent : forall w v ko p d lim script,
+  hd OBadHandle (snd (hstep w (HIterRe v ko p d lim script))) = snd (step w (OpKV v (iter_op ko p d lim))).
+Proof. exact iterate_reentrant_delivery_independent. Qed.
+
+Theorem C04_iterate_reentrant_no_callbacks : forall w v vw ko p d lim script,
+  nth_error (w_views w) v = Some vw -> closed (w_st w) = true \/ d = DBad ->
+  hstep w (HIterRe v ko p d lim script) =
+    (after_snapshot w vw (iter_op ko p d lim), [if closed (w_st w) then OClosed else OPanic]).
+Proof. exact iterate_reentrant_no_callbacks. Qed.
+
 (* A batch applies the last operation per key on Commit (bbuild = the batch's two Go maps after the calls) ... *)
 Theorem C04_commit_last_op_per_key : forall stk r ops s, closed s = false ->
   let c := KCommit (fst (bbuild ops)) (snd (bbuild ops)) in
@@ -118,8 +157,8 @@ Theorem C04_close_spec : forall stk r s,
 Proof. exact close_spec. Qed.
 
 Theorem C04_closed_state_frozen : forall h w, closed (w_st w) = true ->
-  m (w_st (fst (run w h))) = m (w_st w) /\ closed (w_st (fst (run w h))) = true.
-Proof. exact closed_state_frozen. Qed.
+  m (w_st (fst (hrun w h))) = m (w_st w) /\ closed (w_st (fst (hrun w h))) = true.
+Proof. exact hclosed_state_frozen. Qed.
 
 (* Any stack of flushkv/debug wrappers is transparent; the debug log is the filtered list of calls. *)
 Theorem C04_wrapper_transparent : forall stk r o s,
@@ -144,7 +183,7 @@ Example C04_nonvacuous_open :
   closed s = false /\ Inv s /\ length (m s) = 3%nat /\
   snd (exec [] [0] (KIterate [255] DBwd 5) s) = OKVs [([255; 255], [8]); ([255; 97], [7])] /\
   log s = [(1, 16, [[97]; [7]])] /\ nfl s = 1%nat.
-Proof. repeat split; try reflexivity. apply reachable_inv. Qed.
+Proof. repeat split; try reflexivity. apply (C04_reachable_inv (map HOp demo)). Qed.
 
 Example C04_nonvacuous_closed :
   let w := fst (run init (demo ++ [OpKV 3 KClose])) in
@@ -158,7 +197,30 @@ Example C04_nonvacuous_batch :
   lact [BD [1]; BS [1] [2]; BS [3] [4]; BD [3]] [3] = Some None.
 Proof. repeat split; reflexivity. Qed.
 
+(* a consumer that, while handling the first entry, rewrites one and removes another of the entries still to
+   come (through a wrapped view and through the root view) and reads one back: the snapshot is delivered, the
+   nested Get sees the new value, the store afterwards reflects the writes *)
+Definition demo_re : list hop :=
+  map HOp [OpWithRealm 0 [114]; OpWrapDebug 1 7 [16]; OpKV 1 (KSet [1] [10]); OpKV 1 (KSet [2] [20]); OpKV 1 (KSet [3] [30])] ++
+  [HIterRe 1 false [] DBwd 100 [[OpKV 2 (KSet [2] [21]); OpKV 0 (KDelete [114; 1]); OpKV 1 (KGet [2])]; []; [OpKV 1 (KSet [4] [40])]];
+   HOp (OpKV 1 (KIterate [] DFwd 100))].
+
+Example C04_nonvacuous_reentrant :
+  snd (hrun init demo_re) =
+    [[OOk]; [OOk]; [OOk]; [OOk]; [OOk];
+     [OKVs [([3], [30]); ([2], [20]); ([1], [10])]; OOk; OOk; OVal [21]; OOk];
+     [OKVs [([2], [21]); ([3], [30]); ([4], [40])]]] /\
+  log (w_st (fst (hrun init demo_re))) = [(7, 16, [[2]; [21]])] /\
+  let w := fst (hrun init (firstn 5 demo_re)) in
+  nth_error (w_views w) 1 = Some (mkView [114] []) /\ closed (w_st w) = false.
+Proof. repeat split; reflexivity. Qed.
+
 Print Assumptions C04_refines.
+Print Assumptions C04_refines_plain.
+Print Assumptions C04_hrun_plain.
+Print Assumptions C04_iterate_snapshot_reentrant.
+Print Assumptions C04_iterate_reentrant_delivery_independent.
+Print Assumptions C04_iterate_reentrant_no_callbacks.
 Print Assumptions C04_spec_is_ordered_map.
 Print Assumptions C04_reachable_inv.
 Print Assumptions C04_get_spec.
